@@ -184,6 +184,20 @@ func genC07(c *w1Case, r *simrt.Rng) {
 				a1[i].CC, a1[i].CCNeg = ip(*a0[i].CC), ip(*a0[i].CCNeg)
 			}
 		}
+		// the two sides of an axis are two controllers, and no two axes of a mapping share one (the statement is
+		// about "the two controllers" of an axis): re-draw what the variation made coincide
+		used := map[int]bool{}
+		for i := range a1 {
+			for _, pp := range []**int{&a1[i].CC, &a1[i].CCNeg} {
+				if *pp == nil {
+					continue
+				}
+				for used[**pp] {
+					*pp = ip((**pp + 1) % 120)
+				}
+				used[**pp] = true
+			}
+		}
 	}
 	g := newScriptGen(r, c.d)
 	learn := c.d.Actions[0]
